@@ -221,7 +221,9 @@ class Run:
         real = getattr(mgr, name)
 
         def nested(*a, **k):
-            if det.idx() is not None and getattr(det.local, 'depth', 0) > 0:
+            # (once two gate windows overlap the run is in the region of the known finding: the rest of
+            # it is explored at server→manager granularity only)
+            if det.idx() is not None and getattr(det.local, 'depth', 0) > 0 and not self._overlap(None):
                 ns = k.get('namespace', a[1] if len(a) > 1 and isinstance(a[1], str) else None)
                 det.point(('mgr*', name, ns))
                 access.append((det.idx(), 'mgr*', name, ns, None))
